@@ -481,3 +481,18 @@ def l_lean(L):
                  time.time() - t0, detail='' if ok else (p.stdout + p.stderr)[-1500:])
     except subprocess.TimeoutExpired:
         L.undecided('lean re-check', 'lean timed out after 1500 s', backend='lean')
+
+
+@lemma('wca-is-non-negative-and-continuous', props=['C10'])
+def l_wca(L):
+    """With the verified spec of WeeksChandlerAndersen.calculate (LJ(r) - LJ(r_c) for r <= r_c = 2^(1/6) sigma, 0 beyond):
+    writing x = (sigma/r)^6 and using (sigma/r_c)^6 = 1/2:  LJ(r_c) = -eps,  u = 4 eps (x^2 - x) + eps = eps (2x - 1)^2 >= 0
+    for eps >= 0, and u = 0 at r = r_c (x = 1/2): non-negative, vanishing at and beyond the cut, continuous there."""
+    eps, x = z3.Reals('eps x')
+    LJx = lambda xx: 4 * eps * (xx * xx - xx)
+    half = z3.RealVal('1/2')
+    L.prove('LJ at the cut-off equals -eps', LJx(half) == -eps, [])
+    L.prove('u == eps (2x - 1)^2', LJx(x) - LJx(half) == eps * (2 * x - 1) * (2 * x - 1), [])
+    L.prove('eps >= 0 ==> u >= 0', z3.Implies(eps >= 0, LJx(x) - LJx(half) >= 0), [])
+    L.prove('u == 0 at the cut-off (continuity with the zero tail)', LJx(half) - LJx(half) == 0, [])
+    L.expect_unprovable('canary: negative eps gives a negative WCA potential somewhere', z3.Implies(eps < 0, LJx(x) - LJx(half) >= 0), [])
